@@ -71,6 +71,9 @@ func (c *dupOptionChecker) getVariadicArgs(call *ast.CallExpr) ([]ast.Expr, type
 	}
 
 	last := sign.Params().Len() - 1
+	if last > len(call.Args) {
+		return nil, nil
+	}
 	sliceType, ok := sign.Params().At(last).Type().(*types.Slice)
 	if !ok {
 		return nil, nil
